@@ -6,6 +6,7 @@ operands and arbitrary histories.
 -/
 import SpaModel.Basic.C03
 import SpaModel.Props.C11
+import SpaModel.Generated.Tables
 
 namespace C03
 open Impl
@@ -724,6 +725,59 @@ theorem unary_then_binop (u : UnOp) (a o b : Obj) (k : BinOp) (h : unary U u a =
     binop U k o b = binop U k a b ∧ binop U k b o = binop U k b a := by
   rw [unary_keeps_membership U u a o h]
   exact ⟨rfl, rfl⟩
+
+/-! ### the dispatch assumptions of the model, re-checked against the source on every run -/
+
+/-- Which operators and methods the model takes each operand class to define (what `Impl.binop`,
+`Impl.unary`, `spMethod`, `dotM`, … encode in their patterns): `SemanticPointer` has no reflected
+`@`/`rdot`; `PointerSymbol` has no `compare`/`distance`/`mse`/`**`; dynamic nodes have neither those
+nor `normalized`/`unitary`; SPA modules (`Network` with `SpaOperatorMixin`) add `>>`; every class
+sets `__array_ufunc__ = None` (NumPy defers to the reflected operator). -/
+def assumedOps : List (String × List String) := [
+  ("SemanticPointer", ["__add__", "__radd__", "__sub__", "__rsub__", "__mul__", "__rmul__", "__matmul__",
+    "__truediv__", "__neg__", "__invert__", "__pow__", "dot", "compare", "distance", "mse", "normalized",
+    "unitary", "linv", "rinv", "reinterpret", "translate", "abs", "sign", "copy", "length", "array_ufunc_none"]),
+  ("PointerSymbol", ["__add__", "__radd__", "__sub__", "__rsub__", "__mul__", "__rmul__", "__matmul__",
+    "__rmatmul__", "__truediv__", "__neg__", "__invert__", "dot", "rdot", "normalized", "unitary", "linv",
+    "rinv", "reinterpret", "translate", "array_ufunc_none"]),
+  ("FixedScalar", ["__neg__", "array_ufunc_none"]),
+  ("DynamicNode", ["__add__", "__radd__", "__sub__", "__rsub__", "__mul__", "__rmul__", "__matmul__",
+    "__rmatmul__", "__truediv__", "__neg__", "__invert__", "dot", "rdot", "linv", "rinv", "reinterpret",
+    "translate", "array_ufunc_none"]),
+  ("Network", ["__add__", "__radd__", "__sub__", "__rsub__", "__mul__", "__rmul__", "__matmul__",
+    "__rmatmul__", "__truediv__", "__neg__", "__invert__", "dot", "rdot", "linv", "rinv", "reinterpret",
+    "translate", "__rshift__", "__rrshift__", "copy", "array_ufunc_none"])]
+
+def hasOp (cls op : String) : Bool := ((assumedOps.lookup cls).getD []).contains op
+
+/-- **the table regenerated from the source equals the model's assumptions** (an operator added to or
+removed from one of the operand classes breaks this obligation) -/
+theorem generated_op_table_matches : Generated.opTable = assumedOps := by decide +kernel
+
+def unOpName : UnOp → String
+  | .neg => "__neg__" | .inv => "__invert__" | .linv => "linv" | .rinv => "rinv"
+  | .normalized => "normalized" | .unitary => "unitary"
+
+/-- the model refuses a unary operation on a dynamic node with `AttributeError` exactly when the class
+does not define it -/
+theorem unary_dyn_attrErr_iff (u : UnOp) (t : Ty) (g : Bool) :
+    unary U u (.dyn t g) = .error .attrErr ↔ hasOp "DynamicNode" (unOpName u) = false := by
+  cases u <;> cases t <;> simp only [unary, unOpName] <;> (try split) <;> simp_all <;> decide
+
+/-- … and never for pointers and symbols, which define all six -/
+theorem unary_defined_on_ptr_sym (u : UnOp) :
+    hasOp "SemanticPointer" (unOpName u) = true ∧ hasOp "PointerSymbol" (unOpName u) = true := by
+  cases u <;> decide
+
+/-- `compare`, `distance`, `mse` are methods of `SemanticPointer` only: on symbols, nodes and modules the
+model answers `AttributeError`, as the class tables say -/
+theorem spMethod_attrErr_of_missing (red : Red) (b : Obj) :
+    (∀ t, spMethod U red (.sym t) b = .error .attrErr) ∧
+    (∀ t g, spMethod U red (.dyn t g) b = .error .attrErr) ∧
+    (∀ t, spMethod U red (.mod t) b = .error .attrErr) ∧
+    hasOp "PointerSymbol" "compare" = false ∧ hasOp "DynamicNode" "compare" = false ∧
+    hasOp "Network" "compare" = false ∧ hasOp "SemanticPointer" "compare" = true := by
+  refine ⟨fun t => rfl, fun t g => rfl, fun t => rfl, by decide, by decide, by decide, by decide⟩
 
 /-- `reinterpret(a, vocab)` gives the result exactly the requested vocabulary; `reinterpret(a)`
 gives a result without vocabulary -/
